@@ -82,7 +82,16 @@ Verdict(r) ==
   IF r.kind \notin {"ok", "EncoderError"} THEN <<"C09", "exception type " \o r.kind>>
   ELSE
   LET g == ReadSmiles(r.smi)
-  IN IF ~g.ok THEN <<"", "unjudged: outside the specification's SMILES subset">>
+  IN IF ~g.ok
+     THEN (* the reader rejects the input: the molecule-level clauses cannot be judged, but what the   *)
+          (* library returned must still be well formed, decodable and stable under re-encoding        *)
+          IF r.kind # "ok" THEN <<"", "unjudged: outside the specification's SMILES subset">>
+          ELSE IF ~WellFormed(r.sel) THEN <<"C14", "encoder output is not a well-formed SELFIES string">>
+          ELSE LET dx == DecodeFn(Split(r.sel))
+               IN IF dx.pc # "done" \/ dx.fuzzy THEN <<"C10", "encoder output contains a symbol outside the grammar">>
+                  ELSE IF Len(r.dec) > 0 /\ Ch(r.dec, 1) = "<" THEN <<"C10", "the library's decoder rejects the encoder's output: " \o r.dec>>
+                  ELSE IF r.reenc # r.sel THEN <<"C10", "re-encoding the decoded SMILES gives a different SELFIES string (input outside the reader's subset)">>
+                  ELSE <<"", "unjudged: accepted by the library, outside the specification's SMILES subset">>
      ELSE IF r.kind = "EncoderError"
           THEN IF r.why = "kekulize"
                THEN IF AllStandard(g.atoms, g.adj) /\ AssignmentExists(g.atoms, g.adj)
